@@ -188,7 +188,13 @@ def rule_stage_lists(repo: Repo, rep: Report, only=None, rule: str = "STAGE-LIST
             rep.violation(rule, init, f"{cname} bases: {ci.base_names}", "the model no longer inherits the sequential forward()")
             continue
         if "forward" in ci.methods:
-            rep.undecided(rule, ci.methods["forward"], f"{cname}.forward overrides the sequential loop", "an overriding forward is not analysed by this rule")
+            ov = ci.methods["forward"]
+            reads_steps = any(isinstance(x, ast.Attribute) and attr_chain(x) == "self.steps" for x in ast.walk(ov.node))
+            delegates = any(isinstance(c, ast.Call) and unparse(c.func) in ("super().forward", "SequentialModel.forward") for c in ast.walk(ov.node))
+            if not reads_steps and not delegates:
+                rep.violation(rule, ov, f"{cname}.forward overrides the sequential loop without reading self.steps", "the override calls fixed components and never looks at the stage list that add_step / remove_step edit: a stage added after construction never runs and a removed one still does (the pipeline is no longer the declared list)", node=ov.node)
+            else:
+                rep.undecided(rule, ov, f"{cname}.forward overrides the sequential loop", "an overriding forward is not analysed by this rule")
             continue
         from ..astutil import Inliner
 
